@@ -37,6 +37,7 @@ pub fn run(only: &[String]) -> Vec<String> {
     let mut fail = |f: &str, clause: &str, msg: String| { if fails.iter().filter(|x| x.starts_with(&format!("FAIL {} ", f))).count() < 3 { fails.push(format!("FAIL {} {} {}", f, clause, msg)); } };
 
     for m in &models {
+        verif_case(format!("m={} (all single-map operations with arguments $0..$4)", show(m)));
         let s = build(m);
         if want("SlotMap::insert") {
             if pairs(&s) != mpairs(m) || pairs(&build_rev(m)) != mpairs(m) { fail("SlotMap::insert", "C19:insert.view", format!("building {} by inserts gives {}", show(m), shows(&s))); }
@@ -90,6 +91,7 @@ pub fn run(only: &[String]) -> Vec<String> {
         }
     }
     for a in &models { for b in &models {
+        verif_case(format!("a={} b={} (binary operations)", show(a), show(b)));
         let (sa, sb) = (build(a), build(b));
         if want("SlotMap::compose_partial") || want("SlotMap::compose") {
             let e: Model = a.iter().filter_map(|(x, y)| b.get(y).map(|z| (*x, *z))).collect();
